@@ -75,3 +75,14 @@ V('C03', 'index-except-dep-from-on-expr', 'edb/edgeql/declarative.py', 'edb.edge
   'exprs.append(ExprDependency(expr=node.except_expr))', 'exprs.append(ExprDependency(expr=node.expr))', 'C03.R6', 'CreateConcreteIndex.except_expr')
 V('C03', 'special-syntax-by-command-class', 'edb/schema/delta.py', 'edb.schema.delta.AlterObjectProperty._get_ast',
   'and isinstance(parent_node, qlast.AlterObject)', 'and isinstance(parent_op, AlterObject)', 'C03.R1', 'AlterObjectProperty._get_ast:predicate')
+V('C03', 'lint-localnames-not-forwarded', N, 'edb.edgeql.compiler.normalization._normalize_recursively',
+  '''        normalize(
+            value,
+            schema=schema,
+            modaliases=modaliases,
+            localnames=localnames,
+        )''', '''        normalize(
+            value,
+            schema=schema,
+            modaliases=modaliases,
+        )''', 'C03.L', 'slips:option-forwarding')
